@@ -96,6 +96,7 @@ contract(
     params=dict(self=HashFileDB, oid=TStr),
     returns=TStr,
     entry_assume=lambda c: O_def(),
+    assumes=['O(path, oid), the object path used in specifications, is by definition the layout <path>/<oid[:2]>/<oid[2:]>'],
     ensures=lambda c: c.result == O(c.h.get("HashFileDB.path", c.self), c.oid),
     props=["C01", "C06"],
     doc="local stores use the same <path>/<oid[:2]>/<oid[2:]> layout (os.sep taken as '/')",
